@@ -82,3 +82,26 @@ def run_path(path, on_store=None):
                 if isinstance(n, ast.Name):
                     env.pop(n.id, None)
     return env
+
+
+def cond_substituter(path):
+    """Function (test, event index) -> test with single-assignment locals (aliases) replaced by what they stand for at that point."""
+    envs = {}
+    env = {}
+    for i, ev in enumerate(path.events):
+        if ev[0] == "cond":
+            envs[i] = dict(env)
+        elif ev[0] == "stmt":
+            st = ev[1]
+            if isinstance(st, ast.Assign) and len(st.targets) == 1 and isinstance(st.targets[0], ast.Name):
+                env[st.targets[0].id] = subst(st.value, env)
+            elif isinstance(st, (ast.AugAssign,)) and isinstance(st.target, ast.Name):
+                env.pop(st.target.id, None)
+            elif isinstance(st, ast.For):
+                for n in ast.walk(st.target):
+                    if isinstance(n, ast.Name):
+                        env.pop(n.id, None)
+
+    def f(test, i):
+        return subst(test, envs.get(i, {}))
+    return f
